@@ -9,6 +9,8 @@ from .program import callinfo, strip_generics, split_path, type_last, strip_refs
 from . import models as M
 
 sys.setrecursionlimit(20000)
+import os
+TRACE = bool(os.environ.get('TRACE'))
 
 
 class Frame:
@@ -464,7 +466,26 @@ class Engine:
         c, k = self.resolve(fr, p, create=True)
         c[k] = v
 
+    def mk_closure(self, ty, fields, fr):
+        """closure aggregate -> Closure with its body resolved relative to the defining function"""
+        body = None
+        if fr is not None:
+            pre = fr.fn.name + '::{closure#'
+            cands = [f for f in self.prog.fns if f.name.startswith(pre) and '::' not in f.name[len(pre):]
+                     and f.params and strip_refs(f.params[0][1]) == ty]
+            if len(cands) == 1:
+                body = cands[0]
+            elif len(cands) > 1:
+                raise ModelGap('ambiguous closure ' + ty + ' in ' + fr.fn.name)
+        if body is None:
+            body = self.prog.closures.get(ty)
+        if body is None:
+            raise ModelGap('closure body not found: ' + ty)
+        return Closure(ty, fields, body)
+
     def copy_val(self, v):
+        if isinstance(v, Closure):
+            return Closure(v.ty, list(v.fields), v.body)
         if isinstance(v, Agg):
             return Agg(v.ty, v.variant, [self.copy_val(x) for x in v.fields])
         return v
@@ -495,7 +516,7 @@ class Engine:
         if ck == 'char':
             return I('char', c[1])
         if ck == 'path':
-            return self.path_const(c[1])
+            return self.path_const(c[1], fr)
         raise ModelGap('operand ' + repr(o))
 
     def enum_variant(self, path):
@@ -516,10 +537,21 @@ class Engine:
                 return en, ev[vn]
         return None
 
-    def path_const(self, p):
+    def path_const(self, p, fr=None):
+        if p.startswith('ZeroSized: '):
+            t = p[len('ZeroSized: '):]
+            if t.startswith('{closure@'):
+                return self.mk_closure(t, [], fr)
+            return FnItem(t)
         ev = self.enum_variant(p)
         if ev:
+            from .program import TUPLE_VARIANTS
+            segs = split_path(strip_generics(p))
+            if (segs[-2], segs[-1]) in TUPLE_VARIANTS:
+                return FnItem(p)
             return Agg(ev[0], ev[1], [])
+        if type_last(p) in self.prog.unit_structs:
+            return Agg(type_last(p), 0, [])
         if '::promoted[' in p or '{constant#' in p:
             f = self.prog.find_promoted(p)
             if f is None:
@@ -588,7 +620,7 @@ class Engine:
         if k == 'struct':
             return Agg(type_last(rv[1]), 0, [self.operand(fr, o) for _, o in rv[2]])
         if k == 'closure':
-            return Agg(rv[1], 0, [self.operand(fr, o) for _, o in rv[2]])
+            return self.mk_closure(rv[1], [self.operand(fr, o) for _, o in rv[2]], fr)
         if k == 'ctor':
             path = rv[1]
             args = [self.operand(fr, o) for o in rv[2]]
@@ -749,6 +781,14 @@ class Engine:
 
     # ---- calls -----------------------------------------------------------------------
     def dispatch(self, fname, argv, fr):
+        if TRACE:
+            print('  ' * self.depth + 'CALL ' + fname[:150] + ' ' + repr(argv)[:300])
+            r = self._dispatch(fname, argv, fr)
+            print('  ' * self.depth + '  -> ' + repr(r)[:300])
+            return r
+        return self._dispatch(fname, argv, fr)
+
+    def _dispatch(self, fname, argv, fr):
         ci = callinfo(fname)
         st = ci.stripped
         # 1. symbolic intrinsics
@@ -786,10 +826,8 @@ class Engine:
         fv = deref(fv)
         if isinstance(fv, FnItem):
             return self.dispatch(fv.path, args, None)
-        if isinstance(fv, Agg) and fv.ty.startswith('{closure@'):
-            f = self.prog.closures.get(fv.ty)
-            if f is None:
-                raise ModelGap('closure body not found: ' + fv.ty)
+        if isinstance(fv, Closure):
+            f = fv.body
             p0 = f.params[0][1]
             if p0.startswith('&'):
                 self_arg = Ref([fv], 0)
